@@ -15,7 +15,7 @@ const PropertyInfo kInfo = {
     "(IPv4 / hostname / IPv6 literal hosts, port 0 or explicit, source label in {none, manual, config, auto:upnp, stun}, occasionally an empty host that the daemon skips), "
     "0..4 bootstrap nodes (with / without public identity), 0..3 auto-advertise warnings drawn from the seven warning templates of the sources, conflict flag, optional "
     "advertise host / port, control host and storage directory strings with blanks, colons and backslashes; one ControlClient::send per record: LIST | STATUS | DEFAULTS | "
-    "METRICS | DIAGNOSTICS | PING | STORE (binary payload, optional TTL and PATH with blanks / colon) | FETCH STREAM:client of a stored chunk | an unsupported command | clock advance. "
+    "METRICS | DIAGNOSTICS | PING | STORE (binary payload, optional TTL and PATH with blanks / colon) | FETCH STREAM:client of a stored chunk | an unsupported command | clock advance (seconds, or into the last 0.5 s / 1 ns of the earliest-expiring live chunk). "
     "Oracle: success flag, CODE and every scalar field equal the values computed from the node state; the lines of ENTRIES == one 'id,size,encrypted,ttl' per live chunk and "
     "COUNT agrees; the lines of ADVERTISE_ENDPOINTS / BOOTSTRAP_NODES / AUTO_ADVERTISE_WARNINGS correspond one-to-one to the configured lists; no other key appears; payloads are "
     "byte-identical (FETCH: the stored plaintext; METRICS: length == PAYLOAD-LENGTH and every request counter equals the number of requests sent); sampled: `eph --control-port N "
@@ -432,6 +432,22 @@ void run_case(Ctx& c) {
                 break;
             }
             case 9: {
+                if ((r.a(1) & 3) >= 2) {
+                    // into the last second of the earliest-expiring live chunk: it is still live, so LIST must still show it (ttl 0)
+                    auto snap = live_entries();
+                    const auto nowt = std::chrono::steady_clock::now();
+                    auto earliest = std::chrono::steady_clock::time_point::max();
+                    for (auto& s : snap) if (s.expires_at > nowt) earliest = std::min(earliest, s.expires_at);
+                    if (earliest != std::chrono::steady_clock::time_point::max()) {
+                        auto d = earliest - nowt - ((r.a(1) & 3) == 2 ? std::chrono::nanoseconds(500'000'000) : std::chrono::nanoseconds(1));
+                        if (d.count() > 0) {
+                            c.note("|adv(to %s before the earliest deadline)", (r.a(1) & 3) == 2 ? "0.5s" : "1ns");
+                            vclock::advance(d);
+                            c.label("clock_in_last_second_of_a_live_chunk");
+                            break;
+                        }
+                    }
+                }
                 long long d = 1 + r.a(0) * 5;
                 c.note("|adv(%llds)", d);
                 vclock::advance(seconds(d));
